@@ -2,9 +2,9 @@
 """Copy confirmed seeded changes from the scratch area into /verif/seeded/<id>/ with a meta.json."""
 import json, os, re, shutil, sys, ast
 src = sys.argv[1] if len(sys.argv) > 1 else "/tmp/seeds"
-desc = json.load(open(os.path.join(src, "desc.json")))
+desc = json.load(open(os.path.join(src, sys.argv[2] if len(sys.argv) > 2 else "desc.json")))
 first = {}
-for fn in ("summary_round1.txt",):
+for fn in (sys.argv[3] if len(sys.argv) > 3 else "summary_round1.txt",):
     p = os.path.join(src, fn)
     if os.path.exists(p):
         for line in open(p):
